@@ -133,6 +133,9 @@ def stage2(chk, g1, ri, g):
         kind = r.choice([0, 0, 1, 2]); data = r.bytes(64) if kind == 1 else (r.choice([None, r.bytes(1)]) if kind == 2 else None)
         g.add('ellswift_xdh %s %s %s #0 #%d %s' % (ea, eb, h32(a), kind, opt(data)), 'xdh_both_roles', pair=('x', i))
         g.add('ellswift_xdh %s %s %s #1 #%d %s' % (ea, eb, h32(b), kind, opt(data)), 'xdh_both_roles', pair=('x', i))
+        if r.chance(1, 3):      # party is a boolean: every non-zero value means "we are B" and must give B's (= A's) secret
+            pv = r.choice([2, 3, 4, 256, 65536, -1, -2, 2147483647, -2147483648])
+            g.add('ellswift_xdh %s %s %s #%d #%d %s' % (ea, eb, h32(b), pv, kind, opt(data)), 'xdh_party_nonzero_non_one', pair=('x', i))
         if r.chance(1, 6):      # wrong role: the secrets must (practically) differ, and both sides still agree with the model
             g.add('ellswift_xdh %s %s %s #1 #%d %s' % (ea, eb, h32(a), kind, opt(data)), 'xdh_wrong_role')
 
